@@ -86,11 +86,11 @@ def make_jobs(check, edges):
         unopenable = e["sig"].startswith("f:unopenable")
         if check.quick:
             if dead:
-                n = 1 if rot % 5 == 0 else 0
+                n = 1 if rot % 6 == 0 else 0
             elif unopenable:
-                n = 1 if rot % 3 == 0 else 0
+                n = 1 if rot % 4 == 0 else 0
             else:
-                n = 2 if c["lvl"] != "d" else 3
+                n = 2 if (c["lvl"] == "d" or rot % 2 == 0) else 1
         else:
             n = 1 if dead else 2 if unopenable else len(vs)
         n = min(n, len(vs))
